@@ -91,11 +91,12 @@ func init() {
 		},
 		"vReach": func(e *Exec, fn *ssa.Function, a []Value) Value {
 			label := e.goString(a[0])
-			if !e.reached[label] {
+			if !e.reached[label] && !e.eng.isReached(e.hname, label) {
 				r, m := e.sat()
 				if r == Sat {
 					e.reached[label] = true
 					e.reachModel[label] = m
+					e.eng.setReached(e.hname, label)
 				}
 			}
 			return nil
